@@ -41,6 +41,9 @@ def run(rep, idx, tier):
     rep.require("C18.3", 1)
     rep.require("C18.4", 3)
     rep.require("C18.5", 2)
+    rep.require("C18.6", 1)
+    from .c19 import shared_state
+    shared_state(rep, idx, rule="C18.6", classes=["MemoryMap", "_Namespace"])
     namespace_sites(rep, idx)
     name_class(rep, idx)
     is_available(rep, idx)
